@@ -118,12 +118,11 @@ func ParseCSeqVal(buf []byte, offs int, pcs *PCSeqBody) (int, ErrorHdr) {
 				pcs.soffs = i
 				pcs.CSeqNo = uint32(c - '0')
 			case csFoundDigit:
-				v := pcs.CSeqNo*10 + uint32(c-'0')
-				if pcs.CSeqNo > v {
+				if pcs.CSeqNo > (^uint32(0)-uint32(c-'0'))/10 {
 					// overflow
 					return i, ErrHdrNumTooBig
 				}
-				pcs.CSeqNo = v
+				pcs.CSeqNo = pcs.CSeqNo*10 + uint32(c-'0')
 			case csEndDigit:
 				pcs.state = csFoundMethod // method starting with a number(!)
 				pcs.soffs = i
